@@ -31,6 +31,63 @@ def agree(case, impl, model):
     return None
 
 
+# ---- an independent oracle for the 1-D float operations: the left folds in IEEE arithmetic, lane order ----
+import struct, math
+POOL = [0.0, -0.0, 1.0, -1.0, 2.0, 0.5, -2.5, 3.0, 1e300, -1e300, 5e-324, math.inf, -math.inf, math.nan, 7.25, 100.0,
+        1e-10, 1.0000000000000002, -7.0, 0.1]
+
+
+def _r32(x):
+    if math.isnan(x) or math.isinf(x):
+        return x
+    try:
+        return struct.unpack("f", struct.pack("f", x))[0]
+    except OverflowError:
+        return math.copysign(math.inf, x)
+
+
+def _bits(x, single):
+    if math.isnan(x):
+        return "nan"
+    if not math.isinf(x) and x == math.floor(x) and abs(x) < (1e7 if single else 1e15) and not (x == 0.0 and math.copysign(1, x) < 0):
+        return str(int(x))
+    return "f" + (struct.pack(">f", x) if single else struct.pack(">d", x)).hex()
+
+
+def float_fold(op, ty, lane):
+    """expected tokens of the 1-D operation `op` on a lane of pool indices, or None when this oracle does not
+    define it (extrema with ties between the two zeros, all-NaN nan-extrema)"""
+    single = ty == "f32p"
+    rnd = _r32 if single else (lambda v: v)
+    xs = [rnd(POOL[int(i)]) for i in lane]
+    if op in ("sum", "nansum", "cumsum", "nancumsum", "prod", "nanprod", "cumprod", "nancumprod"):
+        mul = "prod" in op
+        skip = op.startswith("nan")
+        acc = 1.0 if mul else 0.0
+        run = []
+        for x in xs:
+            if skip and math.isnan(x):
+                x = 1.0 if mul else 0.0
+            acc = rnd(acc * x) if mul else rnd(acc + x)
+            run.append(acc)
+        if op.startswith("cum") or op.startswith("nancum"):
+            return [_bits(v, single) for v in run]
+        return [_bits(acc, single)]
+    if op in ("max", "amax", "min", "amin", "nanmax", "nanmin"):
+        if not xs:
+            return None
+        nn = [x for x in xs if not math.isnan(x)]
+        if op in ("max", "amax", "min", "amin") and len(nn) != len(xs):
+            return ["nan"]
+        if not nn:
+            return None
+        v = max(nn) if "max" in op else min(nn)
+        if v == 0.0 and any(math.copysign(1, x) < 0 for x in nn if x == 0.0) and any(math.copysign(1, x) > 0 for x in nn if x == 0.0):
+            return None
+        return [_bits(v, single)]
+    return None
+
+
 def decode(code):
     out = []
     while code > 0:
@@ -116,6 +173,14 @@ def gen_rounds(seed, tier, run):
         qi, _ = run(qs)
         for q, r in zip(qs, qi):
             queries[q] = r
+            t = q.split(" ")
+            ty = t[0].split("@")[1]
+            op1 = bytes.fromhex(t[1][1:]).decode()
+            body = t[2].split(":")[1]
+            want = float_fold(op1, ty, body.split(",") if body else [])
+            pa = vlib.parse_arr(r)
+            if want is not None and pa is not None and list(pa[1]) != want:
+                _law_failures.append((q, r, "1-D float operation differs from the left fold in lane order: expected " + ",".join(want)))
     for c, im, q, k, g in pending:
         r = queries[q]
         pa = vlib.parse_arr(r)
